@@ -645,11 +645,13 @@ func resolveSvc(r *core.Run, rule string) *svcAnchors {
 		if fn.Object() == nil {
 			return false
 		}
-		for _, c := range core.Calls(fn) {
-			cc := c.Common()
-			if cc.IsInvoke() && cc.Method.Name() == "Close" {
-				if f, ok := core.LoadedField(cc.Value); ok && f == a.NC {
-					return true
+		for _, f2 := range withAnon(fn) { // also inside a closure of the method (a once-guard, a deferred func)
+			for _, c := range core.Calls(f2) {
+				cc := c.Common()
+				if cc.IsInvoke() && cc.Method.Name() == "Close" {
+					if f, ok := core.LoadedField(cc.Value); ok && f == a.NC {
+						return true
+					}
 				}
 			}
 		}
